@@ -171,7 +171,7 @@ def to_triples(e, properties=True, lnk=True):
             triples.append((nid, ':instance', node.predicate))
             if lnk and node.lnk:
                 triples.append((nid, ':lnk', '"{}"'.format(str(node.lnk))))
-            if node.carg:
+            if node.carg is not None:
                 triples.append(
                     (nid, ':carg', '"{}"'.format(_escape(node.carg))))
             if node.type is not None:
